@@ -388,16 +388,19 @@ def commands_fully_processed(chk, rule: str) -> None:
     that picks some kinds and drops the rest silently removes their effect for that path only (e.g. a resumed run whose restarted
     invocations never announce RUNNING). Decided per producer: the list is iterated, and no iteration can go on to the next
     element without `process_command(<element>)`."""
-    from ..astx import call_name, iteration_can_skip, last
+    from ..astx import call_name, expand, iteration_can_skip, last
 
     repo = chk.repo
     mr, _ = repo.cls(RUNNER)
     n_prod = 0
     for name, fn in repo.methods(RUNNER).items():
         for st in ast.walk(fn):
-            if not (isinstance(st, ast.Assign) and isinstance(st.value, (ast.Call, ast.Await))):
+            if not isinstance(st, ast.Assign):
                 continue
-            call = st.value.value if isinstance(st.value, ast.Await) else st.value
+            val = expand(st.value, st, depth=2) if isinstance(st.value, ast.Name) else st.value      # the pair held in a local first
+            if not isinstance(val, (ast.Call, ast.Await)):
+                continue
+            call = val.value if isinstance(val, ast.Await) else val
             if not (isinstance(call, ast.Call) and last(call_name(call) or "") in ("_reduce_tick", "rewind_in_progress")):
                 continue
             tgt = st.targets[0]
@@ -422,3 +425,88 @@ def commands_fully_processed(chk, rule: str) -> None:
                                   f"StepStateChanged(RUNNING), schedules, …) are dropped on this path only")
             chk.ob(rule, f"every command returned by {producer} is executed through process_command", not bad, m=mr, node=st, fn=fn, instance=f"commands-processed:{producer}", reason=bad)
     chk.floor(rule, "reducer results (state, commands) consumed by the runner", n_prod, 2)
+
+
+def conversion_completeness(chk, rule: str) -> int:
+    """Inside the reducer module, an execution's bookkeeping moves between two record kinds: a queued `EventAttempt` becomes an
+    `InProgressState` when it starts, and an interrupted `InProgressState` becomes an `EventAttempt` again when a resumed run
+    re-queues it. Every such conversion `K(f=x.f, …)` — at least two fields fed from the same-named attributes of one source
+    object — must carry *every* field the two record classes share: a field left out falls back to its default exactly on that
+    path (attempt count, first-attempt time, last failure, recovery counts restart for work that crosses it). Returns the
+    number of conversions examined."""
+    repo = chk.repo
+    ms = repo.module(STATE)
+    mc = repo.module(CL)
+
+    def fields_of(cls: ast.ClassDef) -> list[str]:
+        return [s_.target.id for s_ in cls.body if isinstance(s_, ast.AnnAssign) and isinstance(s_.target, ast.Name) and "ClassVar" not in ast.unparse(s_.annotation)]
+
+    records = {n: fields_of(c) for n, c in ms.classes.items() if "." not in n and fields_of(c)}
+    sites = 0
+    for qn, fn in mc.functions.items():
+        for c in ast.walk(fn):
+            if not (isinstance(c, ast.Call) and isinstance(c.func, ast.Name) and c.func.id in records):
+                continue
+            from ..index import enclosing_function
+            if enclosing_function(c) is not fn:
+                continue
+            kfields = records[c.func.id]
+            fed: dict[str, set[str]] = {}
+            for k in c.keywords:
+                if k.arg is None:
+                    continue
+                for x in ast.walk(k.value):
+                    if isinstance(x, ast.Attribute) and x.attr == k.arg and isinstance(x.value, ast.Name):
+                        fed.setdefault(x.value.id, set()).add(k.arg)
+            for src, names in fed.items():
+                if len(names) < 2:
+                    continue
+                # the source's record kind: the other record class sharing most fields with what is fed
+                cands = [(len(set(f) & set(kfields)), n) for n, f in records.items() if n != c.func.id and names <= set(f)]
+                if not cands:
+                    continue
+                skind = max(cands)[1]
+                shared = [f for f in kfields if f in records[skind]]
+                passed = {k.arg for k in c.keywords if k.arg} | set(kfields[:len(c.args)])
+                missing = [f for f in shared if f not in passed]
+                sites += 1
+                chk.ob(rule, f"{qn}: the conversion `{c.func.id}(…)` built from `{src}` ({skind}) carries every field the two records share", not missing, m=mc, node=c, fn=fn,
+                       instance=f"carry-complete:{qn}:{c.func.id}",
+                       reason=f"fields {missing} of the {skind} are not carried into the {c.func.id}: work that crosses this conversion (a run resumed while the step was executing, "
+                              f"an event starting from the queue) restarts them at their defaults — e.g. a resumed retry measures its elapsed time from the resume, so stop_after_delay "
+                              f"and the failure reports count from there")
+    return sites
+
+
+def replay_consumes_whole_log(chk, rule: str) -> None:
+    """The replay functions fold `_reduce_tick` over the *whole* recorded log: the loop over the ticks is left only when the log
+    is exhausted. A `break` / `return` out of it (e.g. "the run exits on this tick") truncates the history at the first
+    exit-shaped command — and an idle release is one: the run is reloaded under the same id and keeps appending ticks, so
+    everything accepted after it would be lost at the next resume."""
+    from ..astx import call_name, last
+
+    repo = chk.repo
+    m = repo.module(CL)
+    n = 0
+    for ref in ("rebuild_state_from_ticks", "replay_ticks_stream"):
+        fn = m.functions.get(ref)
+        if fn is None:
+            raise AnchorError(f"{rule}: {ref} not found")
+        loops = [l for l in ast.walk(fn) if isinstance(l, (ast.For, ast.AsyncFor)) and any(isinstance(x, ast.Call) and last(call_name(x) or "") == "_reduce_tick" for x in ast.walk(l))]
+        for lp in loops:
+            n += 1
+            # exits of *this* loop: a break not nested in an inner loop, or a return anywhere inside it
+            def exits(node: ast.AST, inner: bool) -> list[ast.AST]:
+                out: list[ast.AST] = []
+                for ch in ast.iter_child_nodes(node):
+                    if isinstance(ch, (ast.FunctionDef, ast.AsyncFunctionDef, ast.Lambda)):
+                        continue
+                    if isinstance(ch, ast.Return) or (isinstance(ch, ast.Break) and not inner):
+                        out.append(ch)
+                    out += exits(ch, inner or isinstance(ch, (ast.For, ast.AsyncFor, ast.While)))
+                return out
+            ex = [e for s_ in lp.body for e in ([s_] if isinstance(s_, (ast.Return, ast.Break)) else []) + exits(s_, isinstance(s_, (ast.For, ast.AsyncFor, ast.While)))]
+            chk.ob(rule, f"{ref} replays every recorded tick (the loop over the log is left only when the log is exhausted)", not ex, m=m, node=ex[0] if ex else lp, fn=fn,
+                   instance=f"replay:{ref}:whole-log",
+                   reason=f"the replay loop can be left early (`{type(ex[0]).__name__.lower()}` at line {getattr(ex[0], 'lineno', '?')})" if ex else "")
+    chk.floor(rule, "replay loops over the recorded log", n, 2)
